@@ -582,13 +582,27 @@ func tk(run string, deps []Call, cmds ...Cmd) Task {
 func Directed(r *rand.Rand) *Prog { return DirectedTemplate(r, r.Intn(NDirected)) }
 
 // NDirected is the number of templates DirectedTemplate knows.
-const NDirected = 9
+const NDirected = 10
 
 func DirectedTemplate(r *rand.Rand, tmpl int) *Prog {
 	code := []int{1, 2, 7, 126, 255}[r.Intn(5)]
 	dedup := []string{"once", "when_changed"}[r.Intn(2)]
 	p := &Prog{}
+	fixedN := -1
 	switch tmpl % NDirected {
+	case 9: // more deps than slots, two of them waiting (without a slot) for a shared task: the third must
+		// still be started as soon as a slot is free (deps are started without waiting for one another)
+		p.Tasks = []Task{
+			tk("always", []Call{{Task: 1}, {Task: 2}, {Task: 3}}, sh(0)),
+			tk("always", []Call{{Task: 4}}, sh(0)),
+			tk("always", []Call{{Task: 4}}, sh(0)),
+			tk("always", nil, sh(0), sh(0)),
+			tk(dedup, nil, sh(0), sh(0)),
+		}
+		if r.Intn(2) == 0 {
+			p.Tasks[0].Deps = append(p.Tasks[0].Deps, Call{Task: 3})
+		}
+		fixedN = 2
 	case 8: // a called task's dep fails while a sibling dep (with deferred commands) is still busy: the
 		// caller ignores the error but must not move on before the sibling went quiet (errgroup.Wait)
 		p.Tasks = []Task{
@@ -686,6 +700,9 @@ func DirectedTemplate(r *rand.Rand, tmpl int) *Prog {
 	}
 	p.Cfg.Roots = []Call{{Task: 0, Var: intp(r.Intn(3))}}
 	p.Cfg.N = []int{0, 1, 2, 3}[r.Intn(4)]
+	if fixedN >= 0 {
+		p.Cfg.N = fixedN
+	}
 	p.Cfg.Yes = r.Intn(4) == 0
 	p.Cfg.MaxCall = 1000
 	return p
